@@ -22,15 +22,18 @@ CLAIMS = {
          "Decides: the unwinder's (block, why) table (pop/unwind/pushes/exception-state swap/Lasti/leave) against ceval.c fast_block_end; code schemes of for/while/if/try/with/break/continue/raise/assert/return. "
          "Does not decide: END_FINALLY/WITH_CLEANUP stack juggling beyond net effects (C12), __exit__ return-value semantics, traceback content across frames.",
          "DESIGN.md §4 C02"),
- "C04": ("emission-trace comparison of the call-site and function-object protocols (symbolic interpretation of the compiler)",
-         "Decides: push order of callee/positionals/keyword pairs/*/**, opcode by star forms, packed argc; decorators, defaults, kw-defaults, annotations, closure, code, qualname order for MAKE_FUNCTION/MAKE_CLOSURE. "
-         "Does not decide: the binder's index arithmetic in EvalCode (value-dependent), TypeError wording.",
+ "C04": ("emission-trace comparison of the call-site and function-object protocols (symbolic interpretation of the compiler); grammar-action analysis with an own yacc reader; raise-site census and loop-bound structure of the binders (typed AST)",
+         "Decides: push order of callee/positionals/keyword pairs/*/**, opcode by star forms, packed argc; decorators, defaults, kw-defaults, annotations, closure, code, qualname order for MAKE_FUNCTION/MAKE_CLOSURE; arglist actions extend the call node with append; keyword-only defaults stay aligned with their arguments; "
+         "each binder (EvalCode, ParseTupleAndKeywords, UnpackTuple, Vm.Call, Method.Call) still contains its TypeError sites for duplicate/unexpected/missing/keyword-only/surplus arguments; EvalCode matches keywords only against the first Argcount+Kwonlyargcount names. "
+         "Does not decide: the binder's index arithmetic in EvalCode (value-dependent), TypeError wording, native signature dispatch beyond its raise sites.",
          "DESIGN.md §4 C04"),
- "C19": ("emission-trace comparison of import statement code schemes",
-         "Decides: IMPORT_NAME/IMPORT_FROM/IMPORT_STAR/POP_TOP schemes and name binding for import forms. Does not decide: which exception a missing module raises; state left by a failing module body.",
+ "C19": ("emission-trace comparison of import statement code schemes; who-may-write and statement-order analysis of the module store and the import function (typed AST)",
+         "Decides: IMPORT_NAME/IMPORT_FROM/IMPORT_STAR/POP_TOP schemes and name binding for import forms; the store's module table is written only where a module is created and creation precedes running its code (a module is importable while its body runs); "
+         "ImportModuleLevelObject consults the store first by the given name, never reassigns it and registers a source module under it; star import filters underscores only without __all__. Does not decide: which exception a missing module raises; state left by a failing module body; path resolution.",
          "DESIGN.md §4 C19"),
- "C20": ("emission-trace comparison (PRINT_EXPR gating)",
-         "Decides: PRINT_EXPR only for interactive top-level expression statements. Does not decide: equivalence of line-at-a-time and whole-file execution; the incomplete-input decision (matches error text, a value).",
+ "C20": ("emission-trace comparison (PRINT_EXPR gating); decision table of the REPL driver by symbolic path enumeration",
+         "Decides: PRINT_EXPR only for interactive top-level expression statements; every path of REPL.Run (buffering in continuation mode, entering it on incomplete input with the line buffered, leaving it and clearing the buffer on every other outcome before reporting or running) equals the reviewed table. "
+         "Does not decide: equivalence of line-at-a-time and whole-file execution; the incomplete-input decision (matches error text, a value); binding of _.",
          "DESIGN.md §4 C20"),
  "C11": ("recover-barrier recognition, panic-argument classification with exhaustiveness discharge, comma-ok/nil-dereference lint, lost-update lint, compiler-proved bounds checks (go build -d=ssa/check_bce) and unchecked-assertion census against confirmed tables",
          "Decides: each pipeline stage is a recover barrier and nothing that can panic runs outside one; every explicit panic is SyntaxError-family, a re-panic from a barrier, provably unreachable (exhaustive switch) or a confirmed row; "
@@ -38,7 +41,7 @@ CLAIMS = {
          "Does not decide: termination of the lexer/parser, pathological slowness; the confirmed rows are beliefs checked by reading, not proofs.",
          "DESIGN.md §4 C11"),
  "C08": ("SSA scan for stores rooted at package-level variables with call-graph init-only classification; must-hold lockset on the registry; who-may-write censuses for ModuleImpl/Code fields; module-global container sharing analysis",
-         "Decides: no run-time write of package-level state outside initialisers/hooks (known finding: repl rebinding vm.PrintExpr); registry accessed under its mutex; module instances get their own containers; ModuleImpl and Code are not written after construction; "
+         "Decides: no run-time write of package-level state outside initialisers/hooks (known finding: repl rebinding vm.PrintExpr); registry accessed under its mutex; module instances get their own containers; ModuleImpl (and anything reached from one through a parameter) and Code are not written after construction; exception fields are stored only by the allocating function (known finding: vm.raise Cause); "
          "no goroutines in the core. Known finding: built-in type dictionaries are writable from Python. Does not decide: data-race freedom of objects contexts share by design (sys.stdout), state reachable only through object graphs (no alias analysis).",
          "DESIGN.md §4 C08"),
  "C18": ("map-iteration commutativity classification (typed AST, callees inlined); SSA scan of the call-graph region of the pipeline for package-level writes and nondeterminism sources",
@@ -47,7 +50,7 @@ CLAIMS = {
          "DESIGN.md §4 C18"),
  "C06": ("own yacc reader + goyacc regeneration compared as position-free syntax trees; grammar production/action table checks; lexer token-table comparison with a frozen Python 3.4 token table",
          "Decides: y.go is what goyacc generates from grammar.y; operator cascade order, associativity, node construction and flattening discipline; comp_op/augassign tables; operator and keyword tables, longest match, bracket counters and NEWLINE/INDENT gating; "
-         "target contexts set in every binding production. Does not decide: literal values (escape decoding, number conversion), indentation arithmetic, completeness of rejection — functions of input bytes.",
+         "target contexts set in every binding production; Unicode-class / whitespace-folding helpers only at reviewed sites in package parser (exact character classes). Does not decide: literal values (escape decoding, number conversion), indentation arithmetic, completeness of rejection — functions of input bytes.",
          "DESIGN.md §4 C06"),
  "C10": ("recover-barrier recognition and coverage (typed AST): barrier-first in RunFrame/EvalCode/py.Call, single handler dispatch site under a barrier, hooks bound to barrier functions, delivery shape of the deferred closures, census of process-exit calls and goroutines",
          "Decides: every execution path from the run/call API to opcode handlers and builtins passes through a barrier that converts a recovered panic into the returned error; no goroutine / os.Exit / log.Fatal escape route in library code. "
